@@ -198,6 +198,9 @@ var snippets = []string{
 	"new A", "new A(b)", "x=-a", "x=!a", "x=typeof a", "x=a++", "x=a+b*c", "x=a?b:c", "x=a=>b", "x=(a,b)=>{c}", "x=async a=>b", "x=async(a)=>b", "x=a??b",
 	"x=a**b", "x=a in b", "x=a instanceof b", "x=/a/g", "x=1n", "x=null", "x=this", "x=super.a", "a,b", "x=await a", "/*! bang */a", "#!shebang\na",
 	"import('a')", "x=a||b&&c", "label:a", "x=void 0", "x=delete a.b", "if(a){b}else if(c){d}else{e}", "x=function*(){yield}", "var a;a=function(){var b;return b}",
+	// arrays of holes only, quoted member names that spell a modifier keyword
+	"x=[,]", "x=[,,]", "[,]=a", "x=[,a]", "x=[a,]", "class A{static 'get'(){} static 'set'(v){} static 'async'(){} 'static'(){} static 'static'(){} 'get'(){} get 'set'(){return 1}}",
+	"x={'get'(){}, 'set'(v){}, 'async'(){}, get 'get'(){return 1}}", "class A{static get(){} static set(v){} static async(){} static static(){}}",
 	"for(let [a,b] of c){}", "for(var {a} in b){}", "x=({a:[b,{c}]})=>d", "class A{static async*[a](){}}", "x={async*[a](){}}", "x=a?.b.c(d)[e]",
 	// multi-line literals and comments
 	"x=`a\nb`", "x=`a\n${b}\nc`", "x='a\\\nb'", "/*! a\n b */x", "//! a\nx", "x=/a\\/b/g", "x=`a${`b\n${c}`}\nd`", "x={'a\\\nb':1}", "x=tag`\n`", "f(`\n`,'\\\n')",
